@@ -156,4 +156,87 @@ Section P.
     [(tid t, ((pos lo t, match ph with Some h => h | None => vmin t end), (pos lo t, height t)));
      (tid t, ((qmin (map (pos lo) (tkids t)), height t), (qmax (map (pos lo) (tkids t)), height t)))].
   Proof. intros H. unfold node_segs. destruct (tkids t); [congruence | reflexivity]. Qed.
+
+  (* ---- planarity: display order of the leaves below a (re-ordered) structure *)
+  Definition LL (u : tree) : list Z := leaf_ids (rev (nodes u)).
+
+  Lemma rev_flat_map {A B} (g : A -> list B) l : rev (flat_map g l) = flat_map (fun x => rev (g x)) (rev l).
+  Proof.
+    induction l as [|x l IH]; [reflexivity|]. cbn [flat_map rev]. rewrite rev_app_distr, IH, flat_map_app. cbn [flat_map].
+    rewrite app_nil_r. reflexivity.
+  Qed.
+
+  Lemma leaf_ids_flat_map (g : tree -> list tree) l : leaf_ids (flat_map g l) = flat_map (fun x => leaf_ids (g x)) l.
+  Proof. induction l as [|x l IH]; [reflexivity|]. cbn [flat_map]. rewrite leaf_ids_app, IH. reflexivity. Qed.
+
+  (* the leaves below a structure, from left to right: its children's blocks in reversed child
+     order (then the structure itself if it is a leaf) *)
+  Lemma LL_unfold i o ks :
+    LL (Node i o ks) = flat_map LL (rev ks) ++ leaf_ids [Node i o ks].
+  Proof.
+    unfold LL. cbn [nodes rev]. rewrite leaf_ids_app, rev_flat_map, leaf_ids_flat_map. reflexivity.
+  Qed.
+
+  (* C18: the leaves of every structure occupy one contiguous run of the leaves of any
+     structure containing it *)
+  Theorem subtree_leaves_contiguous u : forall w, In w (nodes u) -> exists X Z, LL u = X ++ LL w ++ Z.
+  Proof.
+    induction u as [i o ks IH] using tree_ind2. intros w Hw.
+    cbn [nodes] in Hw. destruct Hw as [<-|Hw]; [exists [], []; rewrite app_nil_r; reflexivity|].
+    apply in_flat_map in Hw. destruct Hw as [k [Hk Hw]].
+    rewrite Forall_forall in IH. destruct (IH k Hk w Hw) as [X [Z E]].
+    rewrite LL_unfold. apply in_rev in Hk. apply in_split in Hk. destruct Hk as [l1 [l2 El]].
+    rewrite El, flat_map_app. cbn [flat_map]. rewrite E.
+    exists (flat_map LL l1 ++ X), (Z ++ flat_map LL l2 ++ leaf_ids [Node i o ks]).
+    rewrite <- !app_assoc. reflexivity.
+  Qed.
+
+  (* C18: of two children, all leaves of the later one (in the sorted child list) lie to the left
+     of all leaves of the earlier one: blocks never interleave, so no lines cross *)
+  Theorem sibling_blocks_ordered i o l1 a l2 b l3 :
+    exists X Y Z, LL (Node i o (l1 ++ a :: l2 ++ b :: l3)) = X ++ LL b ++ Y ++ LL a ++ Z.
+  Proof.
+    rewrite LL_unfold. rewrite !rev_app_distr. cbn [rev]. rewrite !rev_app_distr. cbn [rev].
+    rewrite <- !app_assoc. cbn [app]. rewrite !flat_map_app. cbn [flat_map]. rewrite !flat_map_app. cbn [flat_map].
+    exists (flat_map LL (rev l3)), (flat_map LL (rev l2)), (flat_map LL (rev l1) ++ leaf_ids [Node i o (l1 ++ a :: l2 ++ b :: l3)]).
+    rewrite <- !app_assoc. reflexivity.
+  Qed.
+
+  (* ... and the sorted child list is ordered by the requested key *)
+  Lemma key_reorder R t : key (reorder R t) = key t.
+  Proof. unfold Plot.key. rewrite reorder_tid. reflexivity. Qed.
+
+  Lemma sorted_split_le {A} (k : A -> Z) l1 a l2 b l3 :
+    Sorted.StronglySorted (key_le k) (l1 ++ a :: l2 ++ b :: l3) -> k a <= k b.
+  Proof.
+    induction l1 as [|x l1 IH]; intros H; cbn [app] in H.
+    - inversion H as [|? ? _ Hall]; subst. rewrite Forall_forall in Hall. apply Hall. apply in_or_app. right. left. reflexivity.
+    - inversion H; subst. apply IH. assumption.
+  Qed.
+
+  Theorem children_sorted_by_key R i o ks l1 a l2 b l3 :
+    tkids (reorder R (Node i o ks)) = l1 ++ a :: l2 ++ b :: l3 ->
+    if R then key b <= key a else key a <= key b.
+  Proof.
+    cbn [Plot.reorder tkids]. unfold Plot.psorted. intros E. destruct R.
+    - pose proof (sort_by_sorted (fun t => - key t) (map (reorder true) ks)) as Hs. rewrite E in Hs.
+      apply sorted_split_le in Hs. lia.
+    - pose proof (sort_by_sorted key (map (reorder false) ks)) as Hs. rewrite E in Hs.
+      apply sorted_split_le in Hs. exact Hs.
+  Qed.
+
+  (* the display order of the whole dendrogram: trunk structures in sorted order, each with the
+     block of its own leaves *)
+  Lemma sorted_leaves_LL t : map tid (sorted_leaves t) = LL (reorder (negb reverse) t).
+  Proof.
+    unfold Plot.sorted_leaves, LL. destruct (is_leaf t) eqn:El; [|reflexivity].
+    destruct t as [i o ks]. apply is_leaf_kids in El. cbn [tkids] in El. subst ks.
+    destruct reverse; reflexivity.
+  Qed.
+
+  Theorem leaf_order_blocks f :
+    leaf_order f = flat_map (fun t => LL (reorder (negb reverse) t)) (psorted reverse f).
+  Proof.
+    unfold Plot.leaf_order. apply flat_map_ext_Forall. rewrite Forall_forall. intros t _. apply sorted_leaves_LL.
+  Qed.
 End P.
